@@ -129,12 +129,20 @@ def fam_handles(seed, big):
             out.append({"id": "h%d" % i, "kind": "handle", "class": "handle-term", "handle": handle, "script": script,
                         "detached": False})
             i += 1
+    # capture with far more input than the child reads: the call may fail (EPIPE) but must not leave the child behind
+    for handle in ("capture_data", "pl_capture_data"):
+        for script in (["x0"], ["r10", "x0"], ["R", "x0"], ["s30", "x1"], ["ci", "s20", "x0"]):
+            out.append({"id": "h%d" % i, "kind": "handle", "class": "handle-capture-data", "handle": handle,
+                        "script": script, "write": 4 << 20, "detached": False, "may_fail": True})
+            i += 1
     # detached handles: dropping never blocks and never reaps
     for handle in ("popen_plain", "popen_out", "popen_in"):
         for script in (["s300", "x0"], ["x0"], ["R", "x0"], ["wo" + str(BIG), "x0"]):
             out.append({"id": "h%d" % i, "kind": "handle", "class": "handle-detached", "handle": handle, "script": script,
                         "read": 0, "write": 0, "detached": True})
             i += 1
+    for sc in out:
+        sc.setdefault("may_fail", False)
     return out
 
 
